@@ -657,5 +657,36 @@ func l3(w *World, r *Report) {
 		}
 	}
 	r.Check(fresh, "L-3", "ImmutableLedgerAt:fresh-overlay", "the returned ledger has its own empty overlay", "the returned ledger does not get a fresh overlay of its own", fnSite(w, fn))
+	// every other ImmutableLedgerAt of the package (the finality ledger's wrapper) answers
+	// only through that one: no successful return avoids it
+	for _, tn := range []string{"FinalityLedger", "MemLedger"} {
+		wf := w.Method(pkgLedger, tn, "ImmutableLedgerAt")
+		if wf == nil || wf.Blocks == nil {
+			continue
+		}
+		var del ssa.CallInstruction
+		for _, c := range CallsIn(wf) {
+			if cal := c.Common().StaticCallee(); cal != nil {
+				if o := cal.Origin(); o != nil {
+					cal = o
+				}
+				if cal == fn || (cal.Name() == "ImmutableLedgerAt" && cal != wf && inLedgerPkg(w, cal)) {
+					del = c
+				}
+			}
+		}
+		okW := del != nil
+		if okW {
+			// called with the requested version
+			args := del.Common().Args
+			okW = len(args) >= 2 && args[1] == ssa.Value(wf.Params[1])
+			for _, ex := range exitsAvoiding(ipos{wf.Blocks[0], 0}, func(in ssa.Instruction) bool { return in == ssa.Instruction(del.(ssa.Instruction)) }, nil) {
+				if ret, isRet := ex.(*ssa.Return); isRet && ret.Block() != wf.Recover && w.errState(ret) != triNonNil {
+					okW = false
+				}
+			}
+		}
+		r.Check(okW, "L-3", tn+".ImmutableLedgerAt:delegates", "every successful answer comes from SimpleLedger.ImmutableLedgerAt for the requested version", tn+".ImmutableLedgerAt can answer without loading the requested version (a version that is not saved yet would be served from the working tree)", fnSite(w, wf))
+	}
 	r.Check(tree, "L-3", "ImmutableLedgerAt:own-tree", "the returned ledger wraps the tree object created for this request", "the returned ledger wraps a tree object that was not created for this request (a shared or cached iavl tree keeps the 'latest version' it saw when it was opened and serves later state for an old height)", fnSite(w, fn))
 }
